@@ -371,7 +371,8 @@ fn bucket(n: usize) -> &'static str {
         2..=4 => "2-4",
         5..=16 => "5-16",
         17..=64 => "17-64",
-        _ => "65+",
+        65..=150 => "65-150",
+        _ => "151+",
     }
 }
 
@@ -844,7 +845,7 @@ fn run_edge_case(st: &mut Stream, dir: &Path, c: &ECase) {
             })
             .unwrap_or(0);
         st.count(&format!("outcome:{}", head.split(':').next().unwrap()));
-        st.count(&format!("skipped_inadmissible_nearer:{}", skipped.min(4)));
+        st.count(&format!("skipped_inadmissible_nearer:{}", match skipped { 0..=3 => skipped.to_string(), 4..=15 => "4-15".into(), 16..=63 => "16-63".into(), _ => "64+".into() }));
         st.count(&format!("filters:{}{}", if c.classes.is_some() && q.get("road_classes").is_some() { "class" } else { "" }, if restr.is_some() && vparams.is_some() { "+vehicle" } else { "" }));
         for v in &an.verdicts {
             st.count(&format!("verdict:{}", v));
@@ -919,6 +920,70 @@ fn ecase(family: &str, edges: Vec<Vec<P>>, classes: Option<Vec<u8>>, restriction
         query,
         seq: vec![],
     }
+}
+
+/// a network in which the `k` edges nearest to the query (by squared coordinate distance) are inadmissible - mode 0: by road class, 1: by a vehicle height restriction, 2: alternating / both -
+/// then exactly one admissible edge, then more inadmissible ones. `shuffled`: file (= id) order is not distance order.
+fn many_inadmissible(k: usize, mode: usize, with_tol: bool, shuffled: bool) -> ECase {
+    let n = (k + 1 + 12).max(70);
+    let centre = (-1680i64, 632i64);
+    let q = (centre.0 + 1, centre.1 + 1);
+    let mut pts: Vec<P> = vec![];
+    for x in -14i64..=14 {
+        for y in -14i64..=14 {
+            pts.push((centre.0 + 2 * x, centre.1 + 2 * y));
+        }
+    }
+    pts.sort_by_key(|p| (d2_16(*p, q), p.0, p.1));
+    // the k nearest (ties among them allowed), then a point strictly farther than all of them and alone at its
+    // distance (the expected match is unique), then strictly farther ones
+    let dist = |p: &P| d2_16(*p, q);
+    let dk = if k > 0 { dist(&pts[k - 1]) } else { -1 };
+    let j = (k..pts.len()).find(|&j| dist(&pts[j]) > dk).expect("no farther point");
+    let dj = dist(&pts[j]);
+    let mut chosen: Vec<P> = pts[..k].to_vec();
+    chosen.push(pts[j]);
+    chosen.extend(pts[j + 1..].iter().filter(|p| dist(p) > dj).take(n - k - 1)); // its tie partners are left out
+    assert_eq!(chosen.len(), n, "not enough points");
+    let pts = chosen;
+    // position j in distance order -> admissible only for j == k
+    let mut order: Vec<usize> = (0..n).collect(); // order[file index] = distance rank
+    if shuffled {
+        let mut r = Rng::new(0xC16 + k as u64 * 7 + mode as u64);
+        r.shuffle(&mut order);
+    }
+    let mut edges = vec![];
+    let mut classes = vec![];
+    let mut restrictions: Vec<(usize, &str, f64, &str)> = vec![];
+    for (i, rank) in order.iter().enumerate() {
+        let p = pts[*rank];
+        edges.push(if rank % 3 == 0 { vec![p, p] } else { vec![(p.0 - 1, p.1), (p.0 + 1, p.1)] });
+        let adm = *rank == k;
+        let (by_class, by_vehicle) = match (adm, mode) {
+            (true, _) => (false, false),
+            (false, 0) => (true, false),
+            (false, 1) => (false, true),
+            (false, _) => (rank % 2 == 0 || rank % 5 == 0, rank % 2 == 1),
+        };
+        classes.push(if by_class { 9u8 } else { 1 + (*rank % 4) as u8 });
+        if by_vehicle {
+            restrictions.push((i, "maximum_height", 3.0, "meters"));
+        }
+        if rank % 7 == 0 {
+            restrictions.push((i, "maximum_width", 10.0, "feet")); // never binding
+        }
+    }
+    let mut query = query_of(Some(q), None, &[("name", json!("many"))]);
+    if mode != 1 {
+        query = with(query, "road_classes", json!([1, 2, 3, 4]));
+    }
+    if mode != 0 {
+        query = with(query, "vehicle_parameters", vehicle(4.0, 15000.0));
+    }
+    let d = hav(q, pts[k]).unwrap();
+    let unit = UNITS[k % 5];
+    let tol = if with_tol { Some((tol_for(d, unit, 2.0), Some(unit))) } else { None };
+    ecase("many_inadmissible_nearer", edges, if mode != 1 { Some(classes) } else { None }, if mode != 0 { Some(restrictions) } else { None }, tol, query)
 }
 
 fn edge_boundary_cases() -> Vec<ECase> {
@@ -1067,6 +1132,17 @@ fn edge_boundary_cases() -> Vec<ECase> {
             out.push(ecase("curved_edges_tolerance", es.clone(), None, None, Some((tol_for(d1, "feet", 0.5), Some("feet"))), query_of(Some((c0.0 + 1, c0.1 + 1)), None, &[])));
         }
     }
+    // many inadmissible edges nearer than the only admissible one: the nearest-first scan has to skip them all
+    for (ki, k) in [0usize, 8, 40, 63, 64, 65, 100, 300].into_iter().enumerate() {
+        for (vi, with_tol) in [false, true].into_iter().enumerate() {
+            out.push(many_inadmissible(k, (ki + 2 * vi) % 3, with_tol, k <= 100 && (ki + vi) % 2 == 0));
+        }
+    }
+    for k in [63usize, 64, 65] {
+        for mode in 0..3 {
+            out.push(many_inadmissible(k, mode, false, mode == 1));
+        }
+    }
     // SEQUENCES on one plugin instance: the plugin must answer every query on its own
     {
         let veh = |h: f64, w: f64| with(q0.clone(), "vehicle_parameters", vehicle(h, w));
@@ -1101,7 +1177,48 @@ fn edge_boundary_cases() -> Vec<ECase> {
     out
 }
 
+/// a large random network (70..130 edges, file order random) in which ~90 % of the edges are inadmissible
+fn random_crowded_case(r: &mut Rng) -> ECase {
+    let n = r.range(70, 130) as usize;
+    let (pts, centre, spread16) = random_points(r, n, false);
+    let edges: Vec<Vec<P>> = pts.iter().map(|p| shape_around(r, *p)).collect();
+    let n = edges.len();
+    let o = random_coord(r, &pts, centre, spread16);
+    let d = if r.chance(1, 3) { Some(random_coord(r, &pts, centre, spread16)) } else { None };
+    let share = *r.pick(&[80u64, 90, 95, 99]);
+    let mut classes = vec![];
+    let mut restrictions: Vec<(usize, String, f64, String)> = vec![];
+    for i in 0..n {
+        let bad = r.below(100) < share;
+        let by_class = bad && r.chance(1, 2);
+        classes.push(if by_class { 9u8 } else { r.range(1, 4) as u8 });
+        if bad && !by_class {
+            restrictions.push((i, "maximum_height".into(), 3.0, "meters".into()));
+        }
+    }
+    let mut query = query_of(Some(o), d, &random_extras(r));
+    query = with(query, "road_classes", json!([1, 2, 3, 4]));
+    query = with(query, "vehicle_parameters", vehicle(4.0, 15000.0));
+    let mut c = ECase { family: "random_crowded".into(), edges, classes: Some(classes), restrictions: Some(restrictions), mapping: vec![], tol_bits: None, unit: None, query, seq: vec![] };
+    if r.chance(1, 2) {
+        let adm = admissible_set(&c, &c.query);
+        if let Some((b, u)) = random_tolerance(r, o, &adm) {
+            c.tol_bits = Some(b);
+            c.unit = u;
+        }
+        let an = analyse(&c.query, &adm, &tolerance_of(&c.tol_bits, &c.unit));
+        if !an.consistent || an.verdicts.iter().any(|v| v == "band") {
+            c.tol_bits = None;
+            c.unit = None;
+        }
+    }
+    c
+}
+
 fn random_edge_case(r: &mut Rng) -> ECase {
+    if r.chance(1, 20) {
+        return random_crowded_case(r);
+    }
     let n = *r.pick(&[1usize, 2, 3, 4, 6, 8, 10, 12, 16, 24, 30, 45, 70]);
     let polar = r.chance(1, 5);
     let (pts, centre, spread16) = random_points(r, n, polar);
